@@ -76,6 +76,44 @@ theorem moduleOk_getD (hw : T.WFInv) (cls : Bool) (name : Str) :
   | none => simp [emptyModule]
   | some md => exact hw.modules_ok md (findModule_mem T cls name md h)
 
+theorem tableEnv_mem (md : ModuleDef) (hmd : md ∈ T.packageModules ++ T.classModules) (e : MacroDef)
+    (he : e ∈ md.envs) : e ∈ allTableEnvs T := by
+  unfold allTableEnvs
+  exact List.mem_append_right _ (List.mem_flatMap.2 ⟨md, hmd, he⟩)
+
+theorem moduleEnvOk_getD (hw : T.WFInv) (cls : Bool) (name : Str) :
+    ∀ e ∈ ((findModule T cls name).getD (emptyModule name)).envs, envOk T e = true := by
+  cases h : findModule T cls name with
+  | none => simp [emptyModule]
+  | some md =>
+    intro e he
+    exact hw.envs_ok e (tableEnv_mem T md (findModule_mem T cls name md h) e he)
+
+theorem getPackages_envOk (hw : T.WFInv) (cls : Bool) (packs : Str) :
+    ∀ nm ∈ getPackages T cls packs, ∀ e ∈ nm.2.envs, envOk T e = true := by
+  intro nm hnm
+  unfold getPackages at hnm
+  split at hnm
+  · cases hnm
+  · simp only [List.mem_flatten, List.mem_map] at hnm
+    obtain ⟨l, ⟨p, _, rfl⟩, hl⟩ := hnm
+    split at hl
+    · simp only [List.mem_map] at hl
+      obtain ⟨m, _, rfl⟩ := hl
+      exact moduleEnvOk_getD T hw cls m
+    · simp only [List.mem_singleton] at hl
+      subst hl
+      exact moduleEnvOk_getD T hw cls p
+
+theorem builtin_envOk (hw : T.WFInv) (o : Options) :
+    ∀ e ∈ (builtinModule T o).envs, envOk T e = true := by
+  intro e he
+  apply hw.envs_ok
+  unfold builtinModule at he
+  unfold allTableEnvs
+  exact List.mem_append_left _ he
+
+
 theorem getPackages_ok (hw : T.WFInv) (cls : Bool) (packs : Str) :
     ∀ nm ∈ getPackages T cls packs, ∀ m ∈ nm.2.macros ++ nm.2.envs, macroToksOk T m = true := by
   intro nm hnm
@@ -106,7 +144,8 @@ theorem builtin_ok (hw : T.WFInv) (o : Options) :
   · exact Or.inr hm
 
 theorem forM_init_G (nroot fuel : Nat) (A : AllSpecs T nroot fuel) (mods : List (Str × ModuleDef))
-    (hm : ∀ nm ∈ mods, ∀ m ∈ nm.2.macros ++ nm.2.envs, macroToksOk T m = true) (st : PState)
+    (hm : ∀ nm ∈ mods, ∀ m ∈ nm.2.macros ++ nm.2.envs, macroToksOk T m = true)
+    (he : ∀ nm ∈ mods, ∀ e ∈ nm.2.envs, envOk T e = true) (st : PState)
     (hg : G T nroot st) :
     Post (mods.forM (fun nm => (do let _ ← initPackage T fuel nm.1 nm.2 false [] 0; pure () : M Unit)) st)
       (fun _ s => G T nroot s) := by
@@ -115,26 +154,33 @@ theorem forM_init_G (nroot fuel : Nat) (A : AllSpecs T nroot fuel) (mods : List 
   | cons nm rest ih =>
     apply Post_bind (β := PUnit) _ (fun _ => rest.forM _) _ (Q := fun _ s => G T nroot s)
     · apply Post_bind _ _ _ (Q := fun _ s => G T nroot s)
-      · exact Post_mono _ _ _ (A.init nm.1 nm.2 false [] 0 st hg (hm nm (List.mem_cons_self ..)))
+      · exact Post_mono _ _ _ (A.init nm.1 nm.2 false [] 0 st hg (hm nm (List.mem_cons_self ..))
+            (he nm (List.mem_cons_self ..)))
           (fun a s h => h.1.1)
       · intro a s h; exact Post_pure _ _ _ h
     · intro _ s h
-      exact ih (fun nm' h' => hm nm' (List.mem_cons_of_mem _ h')) s h
+      exact ih (fun nm' h' => hm nm' (List.mem_cons_of_mem _ h')) (fun nm' h' => he nm' (List.mem_cons_of_mem _ h')) s h
 
 theorem initParser_G (nroot fuel : Nat) (A : AllSpecs T nroot fuel) (o : Options)
     (hb : ∀ m ∈ (builtinModule T o).macros ++ (builtinModule T o).envs, macroToksOk T m = true)
     (hm : ∀ cls packs, ∀ nm ∈ getPackages T cls packs, ∀ m ∈ nm.2.macros ++ nm.2.envs, macroToksOk T m = true)
+    (hbe : ∀ e ∈ (builtinModule T o).envs, envOk T e = true)
+    (hme : ∀ cls packs, ∀ nm ∈ getPackages T cls packs, ∀ e ∈ nm.2.envs, envOk T e = true)
     (st : PState) (hg : G T nroot st) :
     Post (initParser T fuel o st) (fun _ s => G T nroot s) := by
   unfold initParser
   apply Post_bind _ _ _ (Q := fun _ s => G T nroot s)
-  · exact Post_mono _ _ _ (A.init [] (builtinModule T o) true [] 0 st hg hb) (fun a s h => h.1.1)
+  · exact Post_mono _ _ _ (A.init [] (builtinModule T o) true [] 0 st hg hb hbe) (fun a s h => h.1.1)
   · intro _ s h
-    apply forM_init_G T nroot fuel A _ _ s h
-    intro nm hnm
-    rcases List.mem_append.1 hnm with h' | h'
-    · exact hm _ _ nm h'
-    · exact hm _ _ nm h'
+    apply forM_init_G T nroot fuel A _ _ _ s h
+    · intro nm hnm
+      rcases List.mem_append.1 hnm with h' | h'
+      · exact hm _ _ nm h'
+      · exact hm _ _ nm h'
+    · intro nm hnm
+      rcases List.mem_append.1 hnm with h' | h'
+      · exact hme _ _ nm h'
+      · exact hme _ _ nm h'
 
 theorem initialState_G (nroot : Nat) (o : Options) (multi : Bool) (fs : FS) :
     G T nroot (initialState T o multi fs) := by
@@ -264,7 +310,8 @@ theorem parse_inRange (hw : T.WFInv) (fuel : Nat) (latex : Str) (o : Options) (m
       (fun toks st' => st'.foreign = false → ∀ t ∈ toks, t.txt ≠ [] → TokInRange latex.length t) := by
   have A := allSpecs T hw latex.length fuel
   apply Post_bind _ _ _ (Q := fun _ s => G T latex.length s)
-  · exact initParser_G T latex.length fuel A o (builtin_ok T hw o) (getPackages_ok T hw) _
+  · exact initParser_G T latex.length fuel A o (builtin_ok T hw o) (getPackages_ok T hw)
+      (builtin_envOk T hw o) (getPackages_envOk T hw) _
       (initialState_G T latex.length o multi fs)
   · intro _ s hg
     exact parse_G T hw fuel latex o.defs A extr s hg
